@@ -386,7 +386,10 @@ static void run_trace(const Case& c, const std::string& id) {
 
 static void dispatch(const Case& c, const std::string& id) {
   const std::string& d = c.dom;
-  if (d == "C") { run_case<C_Polyhedron>(c, id); if (c.kind == 'W' && c.arg.ds.size() == 1 && c.arg.ds[0].mode == 'c') run_trace(c, id); }
+  // the template is also traced (on a C_Polyhedron carrier) with the cases of the other generic domains
+  if (c.kind == 'W' && c.arg.ds.size() == 1 && c.arg.ds[0].mode == 'c'
+      && (d == "C" || d == "BQ" || d == "BZ" || d == "BI" || d == "OQ" || d == "OZ")) run_trace(c, "t" + id);
+  if (d == "C") run_case<C_Polyhedron>(c, id);
   else if (d == "N") run_case<NNC_Polyhedron>(c, id);
   else if (d == "BQ") run_case<BD_Shape<mpq_class> >(c, id);
   else if (d == "BZ") run_case<BD_Shape<mpz_class> >(c, id);
